@@ -93,3 +93,778 @@ Proof.
   - repeat constructor. unfold wf_addr. cbn. lia.
   - vm_compute. discriminate.
 Qed.
+
+(** * Generic list / lookup facts *)
+
+Lemma lookup_cons : forall {V} a k (x : V) l,
+  lookup a ((k, x) :: l) = if addr_eqb k a then Some x else lookup a l.
+Proof. reflexivity. Qed.
+
+Lemma find_val_addr : forall a vs v, find_val a vs = Some v -> v_addr v = a /\ In v vs.
+Proof.
+  intros a vs v H. unfold find_val in H. apply find_some in H as [Hin E].
+  apply addr_eqb_eq in E. auto.
+Qed.
+
+Lemma find_val_none : forall a vs, find_val a vs = None <-> ~ In a (map v_addr vs).
+Proof.
+  intros a vs. unfold find_val. induction vs as [|v r IH]; cbn [find map In].
+  - tauto.
+  - destruct (addr_eqb (v_addr v) a) eqn:E.
+    + apply addr_eqb_eq in E. split; [discriminate | intros H; exfalso; apply H; now left].
+    + apply addr_eqb_neq in E. rewrite IH. tauto.
+Qed.
+
+Lemma find_val_some_of_in : forall a vs, In a (map v_addr vs) -> exists v, find_val a vs = Some v.
+Proof.
+  intros a vs H. destruct (find_val a vs) eqn:E; [eauto|].
+  apply find_val_none in E. contradiction.
+Qed.
+
+Definition with_jailed (b : bool) (v : val) : val :=
+  {| v_addr := v_addr v; v_status := v_status v; v_jailed := b; v_power := v_power v |}.
+
+Lemma find_val_set_jailed : forall a b x vs,
+  find_val a (set_jailed b x vs) =
+  match find_val a vs with
+  | Some v => Some (if addr_eqb a b then with_jailed x v else v)
+  | None => None
+  end.
+Proof.
+  intros a b x vs. unfold find_val, set_jailed. induction vs as [|v r IH]; cbn [map find].
+  - reflexivity.
+  - destruct (addr_eqb (v_addr v) b) eqn:Eb; cbn [v_addr].
+    + destruct (addr_eqb (v_addr v) a) eqn:Ea.
+      * apply addr_eqb_eq in Eb, Ea. subst. rewrite addr_eqb_refl. reflexivity.
+      * exact IH.
+    + destruct (addr_eqb (v_addr v) a) eqn:Ea.
+      * apply addr_eqb_eq in Ea. subst a. rewrite Eb. reflexivity.
+      * exact IH.
+Qed.
+
+Lemma map_addr_set_jailed : forall b x vs, map v_addr (set_jailed b x vs) = map v_addr vs.
+Proof.
+  intros b x vs. unfold set_jailed. rewrite map_map. apply map_ext.
+  intros v. destruct (addr_eqb (v_addr v) b); reflexivity.
+Qed.
+
+Lemma map_addr_set_env : forall b st pw vs, map v_addr (set_env b st pw vs) = map v_addr vs.
+Proof.
+  intros b st pw vs. unfold set_env. rewrite map_map. apply map_ext.
+  intros v. destruct (addr_eqb (v_addr v) b); reflexivity.
+Qed.
+
+Definition nonneg (vs : list val) : Prop := Forall (fun v => 0 <= v_power v) vs.
+
+Lemma nonneg_set_jailed : forall b x vs, nonneg vs -> nonneg (set_jailed b x vs).
+Proof.
+  intros b x vs H. unfold nonneg, set_jailed. apply Forall_map. eapply Forall_impl; [|exact H].
+  intros v Hv. cbn beta. destruct (addr_eqb (v_addr v) b); exact Hv.
+Qed.
+
+Lemma nonneg_set_env : forall b st pw vs, 0 <= pw -> nonneg vs -> nonneg (set_env b st pw vs).
+Proof.
+  intros b st pw vs Hp H. unfold nonneg, set_env. apply Forall_map. eapply Forall_impl; [|exact H].
+  intros v Hv. cbn beta. destruct (addr_eqb (v_addr v) b); [exact Hp | exact Hv].
+Qed.
+
+Lemma insert_val_in : forall v vs x, In x (insert_val v vs) <-> x = v \/ In x vs.
+Proof.
+  intros v vs x. induction vs as [|w r IH]; cbn [insert_val].
+  - cbn. intuition.
+  - destruct (key_ltb (v_addr v) (v_addr w)); cbn [In] in *; rewrite ?IH; intuition.
+Qed.
+
+Lemma total_power_set_jailed_le : forall b vs, nonneg vs ->
+  total_power (set_jailed b true vs) <= total_power vs.
+Proof.
+  intros b vs H. induction H as [|v r Hv Hr IH]; cbn [set_jailed map total_power]; [lia|].
+  fold (set_jailed b true r).
+  destruct (addr_eqb (v_addr v) b).
+  - unfold bonded_unjailed at 1. cbn [v_jailed v_status negb]. rewrite andb_false_r.
+    destruct (bonded_unjailed v); lia.
+  - destruct (bonded_unjailed v); lia.
+Qed.
+
+Lemma share_num_nonneg : 0 <= Gen.C12.share_num.
+Proof. vm_compute. discriminate. Qed.
+
+Lemma share_protected_mono : forall cp t t', t' <= t ->
+  share_protected cp t = true -> share_protected cp t' = true.
+Proof.
+  unfold share_protected. intros cp t t' Hle H.
+  apply Z.gtb_lt in H. apply Z.gtb_lt. pose proof share_num_nonneg. nia.
+Qed.
+
+(** * Sentences *)
+
+Lemma last_sentence_in : In last_sentence Gen.C12.jail_sentences.
+Proof. vm_compute. repeat (first [left; reflexivity | right]). Qed.
+
+Lemma next_sentence_in : forall d, In (next_sentence d) Gen.C12.jail_sentences.
+Proof.
+  intros d. unfold next_sentence.
+  destruct (find (fun s => d <? s) Gen.C12.jail_sentences) eqn:E.
+  - apply find_some in E. tauto.
+  - apply last_sentence_in.
+Qed.
+
+Lemma next_sentence_gt : forall d, d < last_sentence -> d < next_sentence d.
+Proof.
+  intros d H. unfold next_sentence.
+  destruct (find (fun s => d <? s) Gen.C12.jail_sentences) eqn:E.
+  - apply find_some in E as [_ E]. now apply Z.ltb_lt in E.
+  - pose proof (find_none _ _ E _ last_sentence_in) as N. cbn beta in N. apply Z.ltb_ge in N. lia.
+Qed.
+
+Lemma sentences_le_last : forall s, In s Gen.C12.jail_sentences -> s <= last_sentence.
+Proof.
+  assert (H : forallb (fun s => s <=? last_sentence) Gen.C12.jail_sentences = true) by (vm_compute; reflexivity).
+  intros s Hs. rewrite forallb_forall in H. apply Z.leb_le. now apply H.
+Qed.
+
+Lemma next_sentence_le_last : forall d, next_sentence d <= last_sentence.
+Proof. intros d. apply sentences_le_last, next_sentence_in. Qed.
+
+Definition table_walk_b : bool :=
+  forallb (fun i => next_sentence (nth i Gen.C12.jail_sentences 0)
+                    =? nth (Nat.min (S i) (length Gen.C12.jail_sentences - 1)) Gen.C12.jail_sentences 0)
+          (seq 0 (length Gen.C12.jail_sentences)).
+
+Lemma table_walk : forall i, (i < length Gen.C12.jail_sentences)%nat ->
+  next_sentence (nth i Gen.C12.jail_sentences 0)
+  = nth (Nat.min (S i) (length Gen.C12.jail_sentences - 1)) Gen.C12.jail_sentences 0.
+Proof.
+  assert (H : table_walk_b = true) by (vm_compute; reflexivity).
+  intros i Hi. unfold table_walk_b in H. rewrite forallb_forall in H.
+  apply Z.eqb_eq. apply H. apply in_seq. lia.
+Qed.
+
+Lemma first_sentence : next_sentence 0 = hd 0 Gen.C12.jail_sentences.
+Proof. vm_compute. reflexivity. Qed.
+
+Lemma ttl_pos : 0 < Gen.C12.keep_alive_ttl.
+Proof. vm_compute. reflexivity. Qed.
+
+(** * The state machine *)
+Section Machine.
+Variable version : Type.
+Variable vlt : version -> version -> bool.
+Notation state := (state version).
+Notation op := (op version).
+
+(** ** Frames: Jail only touches validators, jail log, jailed-until *)
+Definition jail_frame {X} (f : state -> X) : Prop := forall s vs l u, f (set_jail s vs l u) = f s.
+
+Lemma jail_cases : forall (s : state) a,
+  (jail s a = (s, false)) \/
+  (exists v, find_val a (vals s) = Some v /\ v_jailed v = false /\ count_active (vals s) <> 1 /\
+             share_protected (v_power v) (total_power (vals s)) = false /\
+             jail s a = (set_jail s (set_jailed a true (vals s))
+                                 ((a, (sentence_for s a, now s)) :: jlog s)
+                                 ((a, now s + sentence_for s a) :: until s), true)).
+Proof.
+  intros s a. unfold jail. destruct (find_val a (vals s)) as [v|] eqn:Ef; [|now left].
+  destruct (v_jailed v) eqn:Ej; [now left|].
+  destruct (count_active (vals s) =? 1) eqn:Ec; [now left|].
+  destruct (share_protected (v_power v) (total_power (vals s))) eqn:Es; [now left|].
+  right. exists v. apply Z.eqb_neq in Ec. repeat split; auto.
+Qed.
+
+Lemma jail_preserves : forall {X} (f : state -> X), jail_frame f -> forall s a, f (fst (jail s a)) = f s.
+Proof.
+  intros X f Hf s a. destruct (jail_cases s a) as [E|[v [_ [_ [_ [_ E]]]]]]; rewrite E; cbn [fst]; auto.
+Qed.
+
+Lemma sweep_one_cases : forall (s : state) w,
+  sweep_one s w = s \/ sweep_one s w = fst (jail s (v_addr w)).
+Proof.
+  intros s w. unfold sweep_one.
+  destruct (negb (eligible_status (v_status w))); [now left|].
+  destruct (is_alive s (v_addr w)); [now left|].
+  destruct (in_grace s (v_addr w)); [now left|].
+  destruct (find_val (v_addr w) (vals s)) as [cur|]; [|now left].
+  destruct (v_jailed cur); [now left | now right].
+Qed.
+
+Lemma sweep_one_preserves : forall {X} (f : state -> X), jail_frame f -> forall s w, f (sweep_one s w) = f s.
+Proof.
+  intros X f Hf s w. destruct (sweep_one_cases s w) as [E|E]; rewrite E; [reflexivity|].
+  now apply jail_preserves.
+Qed.
+
+Lemma sweep_fold_preserves : forall {X} (f : state -> X), jail_frame f ->
+  forall l s, f (fold_left sweep_one l s) = f s.
+Proof.
+  intros X f Hf l. induction l as [|w r IH]; intros s; cbn [fold_left]; [reflexivity|].
+  rewrite IH. now apply sweep_one_preserves.
+Qed.
+
+Lemma frame_height : jail_frame (@height version). Proof. intros s vs l u; reflexivity. Qed.
+Lemma frame_alive : jail_frame (@alive version). Proof. intros s vs l u; reflexivity. Qed.
+Lemma frame_grace : jail_frame (@grace version). Proof. intros s vs l u; reflexivity. Qed.
+Lemma frame_minver : jail_frame (@minver version). Proof. intros s vs l u; reflexivity. Qed.
+Lemma frame_now : jail_frame (@now version). Proof. intros s vs l u; reflexivity. Qed.
+Definition snapfields (s : state) := (snap_legacy s, snap s, prev_unjailed s).
+Lemma frame_snapfields : jail_frame snapfields. Proof. intros s vs l u; reflexivity. Qed.
+
+Lemma is_alive_ext : forall (s s' : state) a, alive s' = alive s -> height s' = height s -> is_alive s' a = is_alive s a.
+Proof. intros s s' a E1 E2. unfold is_alive. now rewrite E1, E2. Qed.
+Lemma in_grace_ext : forall (s s' : state) a, grace s' = grace s -> height s' = height s -> in_grace s' a = in_grace s a.
+Proof. intros s s' a E1 E2. unfold in_grace. now rewrite E1, E2. Qed.
+
+Lemma jail_addrs : forall (s : state) a, map v_addr (vals (fst (jail s a))) = map v_addr (vals s).
+Proof.
+  intros s a. destruct (jail_cases s a) as [E|[v [_ [_ [_ [_ E]]]]]]; rewrite E; cbn [fst]; [reflexivity|].
+  cbn [set_jail vals]. apply map_addr_set_jailed.
+Qed.
+
+Lemma jail_nonneg : forall (s : state) a, nonneg (vals s) -> nonneg (vals (fst (jail s a))).
+Proof.
+  intros s a H. destruct (jail_cases s a) as [E|[v [_ [_ [_ [_ E]]]]]]; rewrite E; cbn [fst]; [exact H|].
+  cbn [set_jail vals]. now apply nonneg_set_jailed.
+Qed.
+
+Lemma sweep_one_addrs : forall (s : state) w, map v_addr (vals (sweep_one s w)) = map v_addr (vals s).
+Proof. intros s w. destruct (sweep_one_cases s w) as [E|E]; rewrite E; [reflexivity | apply jail_addrs]. Qed.
+
+Lemma sweep_one_nonneg : forall (s : state) w, nonneg (vals s) -> nonneg (vals (sweep_one s w)).
+Proof. intros s w H. destruct (sweep_one_cases s w) as [E|E]; rewrite E; [exact H | now apply jail_nonneg]. Qed.
+
+(** ** The statement "jailed, or covered by the network-protection rules" *)
+Definition settled (a : addr) (s : state) : Prop :=
+  exists v, find_val a (vals s) = Some v /\ (v_jailed v = true \/ protected (vals s) v).
+
+Lemma jail_settled_pres : forall (s : state) b a, nonneg (vals s) -> settled a s -> settled a (fst (jail s b)).
+Proof.
+  intros s b a Hn [v [Hf Hv]].
+  destruct (jail_cases s b) as [E|[vb [Hfb [Hjb [Hc [Hs E]]]]]]; rewrite E; cbn [fst]; [now exists v|].
+  unfold settled. cbn [set_jail vals]. rewrite find_val_set_jailed, Hf.
+  destruct (addr_eqb a b) eqn:Eab.
+  - exists (with_jailed true v). split; [reflexivity|]. left. reflexivity.
+  - exists v. split; [reflexivity|].
+    destruct Hv as [Hj|[Hcnt|Hsh]]; [now left | contradiction |].
+    right. right. eapply share_protected_mono; [|exact Hsh].
+    now apply total_power_set_jailed_le.
+Qed.
+
+Lemma sweep_one_settled_pres : forall (s : state) w a, nonneg (vals s) -> settled a s -> settled a (sweep_one s w).
+Proof.
+  intros s w a Hn H. destruct (sweep_one_cases s w) as [E|E]; rewrite E; [exact H | now apply jail_settled_pres].
+Qed.
+
+Lemma sweep_fold_settled_pres : forall l (s : state) a, nonneg (vals s) -> settled a s -> settled a (fold_left sweep_one l s).
+Proof.
+  induction l as [|w r IH]; intros s a Hn H; cbn [fold_left]; [exact H|].
+  apply IH; [now apply sweep_one_nonneg | now apply sweep_one_settled_pres].
+Qed.
+
+Lemma jail_settles : forall (s : state) a v, find_val a (vals s) = Some v -> v_jailed v = false ->
+  settled a (fst (jail s a)).
+Proof.
+  intros s a v Hf Hj. unfold jail. rewrite Hf, Hj.
+  destruct (count_active (vals s) =? 1) eqn:Ec.
+  { cbn [fst]. exists v. split; [exact Hf|]. right. left. now apply Z.eqb_eq. }
+  destruct (share_protected (v_power v) (total_power (vals s))) eqn:Es.
+  { cbn [fst]. exists v. split; [exact Hf|]. right. right. exact Es. }
+  cbn [fst]. unfold settled. cbn [set_jail vals]. rewrite find_val_set_jailed, Hf, addr_eqb_refl.
+  eexists. split; [reflexivity|]. left. reflexivity.
+Qed.
+
+Lemma sweep_one_settles : forall (s : state) w,
+  In (v_addr w) (map v_addr (vals s)) -> eligible_status (v_status w) = true ->
+  is_alive s (v_addr w) = false -> in_grace s (v_addr w) = false ->
+  settled (v_addr w) (sweep_one s w).
+Proof.
+  intros s w Hin He Ha Hg. unfold sweep_one. rewrite He, Ha, Hg. cbn [negb].
+  destruct (find_val_some_of_in _ _ Hin) as [cur Hc]. rewrite Hc.
+  destruct (v_jailed cur) eqn:Ej.
+  - exists cur. split; [exact Hc | now left].
+  - eapply jail_settles; eassumption.
+Qed.
+
+Lemma sweep_fold_settles : forall l (s : state) w,
+  nonneg (vals s) -> In w l ->
+  In (v_addr w) (map v_addr (vals s)) -> eligible_status (v_status w) = true ->
+  is_alive s (v_addr w) = false -> in_grace s (v_addr w) = false ->
+  settled (v_addr w) (fold_left sweep_one l s).
+Proof.
+  induction l as [|x r IH]; intros s w Hn Hl Hin He Ha Hg; [contradiction|].
+  cbn [fold_left]. destruct Hl as [->|Hl].
+  - apply sweep_fold_settled_pres; [now apply sweep_one_nonneg | now apply sweep_one_settles].
+  - apply IH; auto.
+    + now apply sweep_one_nonneg.
+    + now rewrite sweep_one_addrs.
+    + rewrite <- Ha. apply is_alive_ext; apply sweep_one_preserves; [apply frame_alive | apply frame_height].
+    + rewrite <- Hg. apply in_grace_ext; apply sweep_one_preserves; [apply frame_grace | apply frame_height].
+Qed.
+
+(** the sweep settles every eligible, silent, out-of-grace validator that was unjailed when it started *)
+Lemma sweep_settles : forall (s : state) v,
+  nonneg (vals s) -> In v (vals s) -> v_jailed v = false -> eligible_status (v_status v) = true ->
+  is_alive s (v_addr v) = false -> in_grace s (v_addr v) = false ->
+  settled (v_addr v) (sweep s).
+Proof.
+  intros s v Hn Hin Hj He Ha Hg. unfold sweep. apply sweep_fold_settles; auto.
+  - unfold unjailed. apply filter_In. split; [exact Hin | now rewrite Hj].
+  - now apply in_map.
+Qed.
+
+(** ** The sweep never touches a validator with an unexpired keep-alive, or inside its grace period *)
+Lemma sweep_one_skips : forall (s : state) w a,
+  is_alive s a = true \/ in_grace s a = true ->
+  find_val a (vals (sweep_one s w)) = find_val a (vals s).
+Proof.
+  intros s w a H. unfold sweep_one.
+  destruct (negb (eligible_status (v_status w))); [reflexivity|].
+  destruct (is_alive s (v_addr w)) eqn:Ea; [reflexivity|].
+  destruct (in_grace s (v_addr w)) eqn:Eg; [reflexivity|].
+  destruct (find_val (v_addr w) (vals s)) as [cur|]; [|reflexivity].
+  destruct (v_jailed cur); [reflexivity|].
+  assert (Hne : addr_eqb a (v_addr w) = false).
+  { apply addr_eqb_neq. intros ->. destruct H; congruence. }
+  destruct (jail_cases s (v_addr w)) as [E|[vb [_ [_ [_ [_ E]]]]]]; rewrite E; cbn [fst]; [reflexivity|].
+  cbn [set_jail vals]. rewrite find_val_set_jailed, Hne. now destruct (find_val a (vals s)).
+Qed.
+
+Lemma sweep_fold_skips : forall l (s : state) a,
+  is_alive s a = true \/ in_grace s a = true ->
+  find_val a (vals (fold_left sweep_one l s)) = find_val a (vals s).
+Proof.
+  induction l as [|w r IH]; intros s a H; cbn [fold_left]; [reflexivity|].
+  rewrite IH; [now apply sweep_one_skips|].
+  destruct H as [H|H]; [left|right]; rewrite <- H.
+  - apply is_alive_ext; apply sweep_one_preserves; [apply frame_alive | apply frame_height].
+  - apply in_grace_ext; apply sweep_one_preserves; [apply frame_grace | apply frame_height].
+Qed.
+
+(** ** UpdateGracePeriod *)
+Lemma grant_fold_lookup : forall h prev cur g a,
+  lookup a (fold_left (grant h prev) cur g) =
+  if mem a cur && negb (mem a prev) then Some h else lookup a g.
+Proof.
+  intros h prev cur. induction cur as [|c r IH]; intros g a; cbn [fold_left]; [reflexivity|].
+  rewrite IH. unfold mem at 3. cbn [existsb]. fold (mem a r).
+  unfold grant. destruct (addr_eqb a c) eqn:Eac.
+  - apply addr_eqb_eq in Eac. subst c. cbn [orb].
+    destruct (mem a prev) eqn:Ep; cbn [negb andb].
+    + rewrite andb_false_r. reflexivity.
+    + rewrite andb_true_r. rewrite lookup_cons, addr_eqb_refl. now destruct (mem a r).
+  - cbn [orb]. destruct (mem c prev); [reflexivity|].
+    rewrite lookup_cons. rewrite addr_eqb_sym, Eac. reflexivity.
+Qed.
+
+Lemma update_grace_spec : forall (s s1 : state), update_grace s = Some s1 ->
+  exists blob, encode (unjailed_addrs (vals s)) = Some blob /\
+  s1 = set_snapshot s (fold_left (grant (height s) (read_snapshot s)) (unjailed_addrs (vals s)) (grace s))
+                    blob (unjailed_addrs (vals s)).
+Proof.
+  intros s s1 H. unfold update_grace in H.
+  destruct (encode (unjailed_addrs (vals s))) as [blob|]; [|discriminate].
+  inversion H. eauto.
+Qed.
+
+Lemma update_grace_lookup : forall (s s1 : state) a, update_grace s = Some s1 ->
+  lookup a (grace s1) =
+  if mem a (unjailed_addrs (vals s)) && negb (mem a (read_snapshot s)) then Some (height s) else lookup a (grace s).
+Proof.
+  intros s s1 a H. apply update_grace_spec in H as [blob [_ ->]]. cbn [set_snapshot grace].
+  apply grant_fold_lookup.
+Qed.
+
+Definition wf_state (s : state) : Prop :=
+  Forall wf_addr (map v_addr (vals s)) /\ nonneg (vals s).
+
+Lemma unjailed_addrs_incl : forall vs a, In a (unjailed_addrs vs) -> In a (map v_addr vs).
+Proof.
+  intros vs a H. unfold unjailed_addrs, unjailed in H. apply in_map_iff in H as [v [<- Hv]].
+  apply filter_In in Hv as [Hv _]. now apply in_map.
+Qed.
+
+Lemma update_grace_total : forall s : state, wf_state s -> exists s1, update_grace s = Some s1.
+Proof.
+  intros s [Hw _]. unfold update_grace.
+  destruct (encode_total (unjailed_addrs (vals s))) as [blob E].
+  - rewrite Forall_forall in *. intros a Ha. apply Hw. now apply unjailed_addrs_incl.
+  - rewrite E. eauto.
+Qed.
+
+(** ** The snapshot invariant: once the legacy entry is gone, the stored blob decodes to exactly
+    the validators that were unjailed at the end of the last processed block *)
+Definition snap_inv (s : state) : Prop := snap_legacy s = None -> read_snapshot s = prev_unjailed s.
+
+Lemma snap_inv_fields : forall s s' : state, snapfields s' = snapfields s -> snap_inv s -> snap_inv s'.
+Proof.
+  intros s s' E H. unfold snapfields in E. inversion E as [[E1 E2 E3]].
+  unfold snap_inv, read_snapshot in *. rewrite E1, E2, E3. exact H.
+Qed.
+
+Lemma update_grace_snap_inv : forall s s1 : state, update_grace s = Some s1 -> snap_inv s1 /\ snap_legacy s1 = None.
+Proof.
+  intros s s1 H. apply update_grace_spec in H as [blob [E ->]]. split; [|reflexivity].
+  intros _. unfold read_snapshot. cbn [set_snapshot snap_legacy snap prev_unjailed].
+  now apply decode_encode.
+Qed.
+
+Lemma end_block_cases : forall s : state,
+  (end_block s = (s, false)) \/
+  (exists s1, update_grace s = Some s1 /\
+     end_block s = (if is_check_height (height s1) then sweep s1 else s1, true)).
+Proof.
+  intros s. unfold end_block. destruct (update_grace s) as [s1|]; [right; eauto | now left].
+Qed.
+
+Lemma sweep_preserves : forall {X} (f : state -> X), jail_frame f -> forall s, f (sweep s) = f s.
+Proof. intros X f Hf s. unfold sweep. now apply sweep_fold_preserves. Qed.
+
+Lemma end_block_snap_inv : forall s : state, snap_inv s -> snap_inv (fst (end_block s)).
+Proof.
+  intros s H. destruct (end_block_cases s) as [E|[s1 [Hu E]]]; rewrite E; cbn [fst]; [exact H|].
+  apply update_grace_snap_inv in Hu as [Hi _].
+  destruct (is_check_height (height s1)); [|exact Hi].
+  eapply snap_inv_fields; [|exact Hi]. apply sweep_preserves, frame_snapfields.
+Qed.
+
+Lemma step_snap_inv : forall (s : state) o, snap_inv s -> snap_inv (step vlt s o).
+Proof.
+  intros s o H. destruct o; cbn [step].
+  - destruct (find_val a (vals s)); [exact H|]. destruct (wf_addrb a); exact H.
+  - destruct (valid_status st && (0 <=? pw)); exact H.
+  - unfold begin_block. destruct (sched s) as [[v t]|]; [|exact H].
+    destruct (t <=? height s); [|exact H]. unfold set_min. destruct (vlt v (minver s)); exact H.
+  - unfold keep_alive. destruct (find_val a (vals s)); [|exact H]. destruct (vlt ver (minver s)); exact H.
+  - unfold set_min. destruct (vlt ver (minver s)); exact H.
+  - unfold schedule. destruct (vlt ver (minver s)); exact H.
+  - exact H.
+  - exact H.
+  - eapply snap_inv_fields; [|exact H]. apply (jail_preserves snapfields frame_snapfields).
+  - apply end_block_snap_inv in H. exact H.
+Qed.
+
+Lemma run_snap_inv : forall ops (s : state), snap_inv s -> snap_inv (run vlt ops s).
+Proof.
+  induction ops as [|o r IH]; intros s H; cbn [run fold_left]; [exact H|].
+  apply IH. now apply step_snap_inv.
+Qed.
+
+Lemma init_snap_inv : forall h t legacy m, snap_inv (@init version h t legacy m).
+Proof. intros h t legacy m E. cbn in E. subst legacy. reflexivity. Qed.
+
+(** ** Well-formedness is an invariant *)
+Lemma sweep_wf : forall s : state, wf_state s -> wf_state (sweep s).
+Proof.
+  intros s [Hw Hn]. unfold sweep. generalize (unjailed (vals s)) as l. intros l.
+  revert s Hw Hn. induction l as [|w r IH]; intros s Hw Hn; cbn [fold_left]; [now split|].
+  apply IH; [now rewrite sweep_one_addrs | now apply sweep_one_nonneg].
+Qed.
+
+Lemma end_block_wf : forall s : state, wf_state s -> wf_state (fst (end_block s)).
+Proof.
+  intros s H. destruct (end_block_cases s) as [E|[s1 [Hu E]]]; rewrite E; cbn [fst]; [exact H|].
+  apply update_grace_spec in Hu as [blob [_ ->]].
+  assert (W : wf_state (set_snapshot s (fold_left (grant (height s) (read_snapshot s)) (unjailed_addrs (vals s)) (grace s))
+                                     blob (unjailed_addrs (vals s)))) by exact H.
+  destruct (is_check_height _); [now apply sweep_wf | exact W].
+Qed.
+
+Lemma step_wf : forall (s : state) o, wf_state s -> wf_state (step vlt s o).
+Proof.
+  intros s o H. destruct o; cbn [step].
+  - destruct (find_val a (vals s)); [exact H|]. destruct (wf_addrb a) eqn:Ew; [|exact H].
+    destruct H as [Hw Hn]. split; cbn [set_vals vals].
+    + rewrite Forall_forall in *. intros x Hx. apply in_map_iff in Hx as [v [<- Hv]].
+      apply insert_val_in in Hv as [->|Hv]; [now apply wf_addrb_iff | apply Hw; now apply in_map].
+    + unfold nonneg in *. rewrite Forall_forall in *. intros v Hv.
+      apply insert_val_in in Hv as [->|Hv]; [cbn; lia | now apply Hn].
+  - destruct (valid_status st && (0 <=? pw)) eqn:E; [|exact H].
+    apply andb_true_iff in E as [_ E]. apply Z.leb_le in E.
+    destruct H as [Hw Hn]. split; cbn [set_vals vals]; [now rewrite map_addr_set_env | now apply nonneg_set_env].
+  - unfold begin_block. destruct (sched s) as [[v t]|]; [|exact H].
+    destruct (t <=? height s); [|exact H]. unfold set_min. destruct (vlt v (minver s)); exact H.
+  - unfold keep_alive. destruct (find_val a (vals s)); [|exact H]. destruct (vlt ver (minver s)); exact H.
+  - unfold set_min. destruct (vlt ver (minver s)); exact H.
+  - unfold schedule. destruct (vlt ver (minver s)); exact H.
+  - destruct H as [Hw Hn]. split; cbn [set_vals vals]; [now rewrite map_addr_set_jailed | now apply nonneg_set_jailed].
+  - destruct H as [Hw Hn]. split; cbn [set_vals vals]; [now rewrite map_addr_set_jailed | now apply nonneg_set_jailed].
+  - destruct H as [Hw Hn]. split; [now rewrite jail_addrs | now apply jail_nonneg].
+  - apply end_block_wf in H. exact H.
+Qed.
+
+Lemma run_wf : forall ops (s : state), wf_state s -> wf_state (run vlt ops s).
+Proof.
+  induction ops as [|o r IH]; intros s H; cbn [run fold_left]; [exact H|].
+  apply IH. now apply step_wf.
+Qed.
+
+Lemma init_wf : forall h t legacy m, wf_state (@init version h t legacy m).
+Proof. intros. split; constructor. Qed.
+
+End Machine.
+
+(** * Property-level statements *)
+Section Statements.
+Variable version : Type.
+Variable vlt : version -> version -> bool.
+Notation state := (state version).
+
+Lemma settled_set_clock : forall (s : state) a h t, settled version a s -> settled version a (set_clock s h t).
+Proof. intros s a h t H. exact H. Qed.
+
+(** Headline 1.  In every history, at every liveness-check height: a bonded or unbonding, unjailed
+    validator without an unexpired keep-alive, that was already unjailed at the end of the previous
+    block and whose last grace period (if any) is over, is — after this end-block — jailed, or
+    exempt by the network-protection rules evaluated on the resulting validator set. *)
+Theorem inactive_jailed_at_next_check_proof : forall h0 t0 legacy m ops v dh dt,
+  let s := run vlt ops (init h0 t0 legacy m) in
+  is_check_height (height s) = true ->
+  In v (vals s) -> eligible_status (v_status v) = true -> v_jailed v = false ->
+  is_alive s (v_addr v) = false ->
+  snap_legacy s = None -> In (v_addr v) (prev_unjailed s) ->
+  in_grace s (v_addr v) = false ->
+  exists v', find_val (v_addr v) (vals (step vlt s (EndBlock dh dt))) = Some v' /\
+             (v_jailed v' = true \/ protected (vals (step vlt s (EndBlock dh dt))) v').
+Proof.
+  intros h0 t0 legacy m ops v dh dt s Hc Hin He Hj Ha Hl Hp Hg.
+  assert (W : wf_state version s) by (apply run_wf, init_wf).
+  assert (I : snap_inv version s) by (apply run_snap_inv, init_snap_inv).
+  destruct (update_grace_total version s W) as [s1 Hu].
+  change (settled version (v_addr v) (step vlt s (EndBlock dh dt))).
+  cbn [step]. apply settled_set_clock.
+  unfold end_block. rewrite Hu. cbn [fst].
+  pose proof (update_grace_lookup version s s1 (v_addr v) Hu) as Hlk.
+  apply update_grace_spec in Hu as [blob [_ E]].
+  assert (Hh : height s1 = height s) by (rewrite E; reflexivity).
+  assert (Hv : vals s1 = vals s) by (rewrite E; reflexivity).
+  assert (Hal : alive s1 = alive s) by (rewrite E; reflexivity).
+  rewrite Hh, Hc.
+  apply sweep_settles; auto.
+  - rewrite Hv. apply W.
+  - now rewrite Hv.
+  - rewrite <- Ha. now apply is_alive_ext.
+  - rewrite <- Hg. unfold in_grace. rewrite Hh, Hlk.
+    rewrite (I Hl). apply mem_In in Hp. rewrite Hp. cbn [negb]. rewrite andb_false_r. reflexivity.
+Qed.
+
+(** Headline 2.  In ANY state, the end-block leaves a validator with an unexpired keep-alive exactly
+    as it was (in particular it is not jailed); likewise a validator whose grace period is running
+    after the grace update; and nobody is jailed at a height that is not a check height. *)
+Theorem alive_never_jailed_proof : forall (s : state) a dh dt,
+  is_alive s a = true ->
+  find_val a (vals (step vlt s (EndBlock dh dt))) = find_val a (vals s).
+Proof.
+  intros s a dh dt Ha. cbn [step]. change (vals (set_clock ?x _ _)) with (vals x).
+  destruct (end_block_cases version s) as [E|[s1 [Hu E]]]; rewrite E; cbn [fst]; [reflexivity|].
+  apply update_grace_spec in Hu as [blob [_ Es]].
+  assert (Hv : vals s1 = vals s) by (rewrite Es; reflexivity).
+  destruct (is_check_height (height s1)); [|now rewrite Hv].
+  unfold sweep. rewrite sweep_fold_skips; [now rewrite Hv|].
+  left. rewrite <- Ha. apply is_alive_ext; rewrite Es; reflexivity.
+Qed.
+
+Theorem grace_never_jailed_proof : forall (s s1 : state) a,
+  update_grace s = Some s1 -> in_grace s1 a = true ->
+  find_val a (vals (fst (end_block s))) = find_val a (vals s).
+Proof.
+  intros s s1 a Hu Hg. unfold end_block. rewrite Hu. cbn [fst].
+  assert (Hv : vals s1 = vals s).
+  { apply update_grace_spec in Hu as [blob [_ Es]]. rewrite Es. reflexivity. }
+  destruct (is_check_height (height s1)); [|now rewrite Hv].
+  unfold sweep. rewrite sweep_fold_skips; [now rewrite Hv | now right].
+Qed.
+
+Theorem no_jailing_between_checks_proof : forall (s : state) dh dt,
+  is_check_height (height s) = false -> vals (step vlt s (EndBlock dh dt)) = vals s.
+Proof.
+  intros s dh dt Hc. cbn [step]. change (vals (set_clock ?x _ _)) with (vals x).
+  destruct (end_block_cases version s) as [E|[s1 [Hu E]]]; rewrite E; cbn [fst]; [reflexivity|].
+  apply update_grace_spec in Hu as [blob [_ Es]].
+  assert (Hh : height s1 = height s) by (rewrite Es; reflexivity).
+  rewrite Hh, Hc, Es. reflexivity.
+Qed.
+
+(** Grace periods start exactly for the validators that are unjailed now and were not unjailed at
+    the end of the previous block — in every history, once the legacy entry is gone. *)
+Theorem grace_only_when_newly_unjailed_proof : forall h0 t0 legacy m ops s1 a,
+  let s := run vlt ops (init h0 t0 legacy m) in
+  snap_legacy s = None -> update_grace s = Some s1 ->
+  (In a (prev_unjailed s) -> lookup a (grace s1) = lookup a (grace s)) /\
+  (~ In a (unjailed_addrs (vals s)) -> lookup a (grace s1) = lookup a (grace s)) /\
+  (In a (unjailed_addrs (vals s)) -> ~ In a (prev_unjailed s) -> lookup a (grace s1) = Some (height s)) /\
+  prev_unjailed s1 = unjailed_addrs (vals s) /\ snap_legacy s1 = None.
+Proof.
+  intros h0 t0 legacy m ops s1 a s Hl Hu.
+  assert (I : snap_inv version s) by (apply run_snap_inv, init_snap_inv).
+  pose proof (update_grace_lookup version s s1 a Hu) as Hlk. rewrite (I Hl) in Hlk.
+  repeat split.
+  - intros Hp. apply mem_In in Hp. rewrite Hlk, Hp. cbn [negb]. now rewrite andb_false_r.
+  - intros Hn. rewrite Hlk. destruct (mem a (unjailed_addrs (vals s))) eqn:E; [|reflexivity].
+    apply mem_In in E. contradiction.
+  - intros Hc Hn. rewrite Hlk. apply mem_In in Hc. rewrite Hc.
+    destruct (mem a (prev_unjailed s)) eqn:E; [apply mem_In in E; contradiction | reflexivity].
+  - apply update_grace_spec in Hu as [blob [_ ->]]. reflexivity.
+  - apply update_grace_spec in Hu as [blob [_ ->]]. reflexivity.
+Qed.
+
+(** Keep-alives *)
+Theorem old_relayers_refused_proof : forall (s : state) a ver,
+  vlt ver (minver s) = true -> keep_alive vlt s a ver = (s, false).
+Proof.
+  intros s a ver H. unfold keep_alive. destruct (find_val a (vals s)); [rewrite H|]; reflexivity.
+Qed.
+
+Theorem keep_alive_accepted_proof : forall (s s' : state) a ver,
+  keep_alive vlt s a ver = (s', true) ->
+  vlt ver (minver s) = false /\ (exists v, find_val a (vals s) = Some v) /\
+  lookup a (alive s') = Some (height s + Gen.C12.keep_alive_ttl) /\ is_alive s' a = true /\ vals s' = vals s.
+Proof.
+  intros s s' a ver H. unfold keep_alive in H.
+  destruct (find_val a (vals s)) as [v|] eqn:Ef; [|discriminate].
+  destruct (vlt ver (minver s)) eqn:Ev; [discriminate|].
+  inversion H; subst s'; clear H.
+  assert (L : lookup a (alive (set_alive s ((a, height s + Gen.C12.keep_alive_ttl) :: alive s)))
+              = Some (height s + Gen.C12.keep_alive_ttl)).
+  { cbn [set_alive alive]. rewrite lookup_cons, addr_eqb_refl. reflexivity. }
+  repeat split; eauto.
+  unfold is_alive. rewrite L. cbn [set_alive height]. apply Z.ltb_lt. pose proof ttl_pos. lia.
+Qed.
+
+(** The minimum version never decreases along any history *)
+Section MinVersion.
+Hypothesis vlt_irrefl : forall a, vlt a a = false.
+Hypothesis vlt_negtrans : forall a b c, vlt a b = false -> vlt b c = false -> vlt a c = false.
+
+Lemma end_block_minver : forall s : state, minver (fst (end_block s)) = minver s.
+Proof.
+  intros s. destruct (end_block_cases version s) as [E|[s1 [Hu E]]]; rewrite E; cbn [fst]; [reflexivity|].
+  apply update_grace_spec in Hu as [blob [_ Es]].
+  assert (Hm : minver s1 = minver s) by (rewrite Es; reflexivity).
+  destruct (is_check_height (height s1)); [|exact Hm].
+  rewrite (sweep_preserves version (@minver version) (frame_minver version)). exact Hm.
+Qed.
+
+Lemma step_minver : forall (s : state) o, vlt (minver (step vlt s o)) (minver s) = false.
+Proof.
+  intros s o. destruct o; cbn [step].
+  - destruct (find_val a (vals s)); [apply vlt_irrefl|]. destruct (wf_addrb a); apply vlt_irrefl.
+  - destruct (valid_status st && (0 <=? pw)); apply vlt_irrefl.
+  - unfold begin_block. destruct (sched s) as [[v t]|]; [|apply vlt_irrefl].
+    destruct (t <=? height s); [|apply vlt_irrefl].
+    unfold set_min. destruct (vlt v (minver s)) eqn:E; cbn [fst]; [apply vlt_irrefl | exact E].
+  - unfold keep_alive. destruct (find_val a (vals s)); [|apply vlt_irrefl].
+    destruct (vlt ver (minver s)); apply vlt_irrefl.
+  - unfold set_min. destruct (vlt ver (minver s)) eqn:E; cbn [fst]; [apply vlt_irrefl | exact E].
+  - unfold schedule. destruct (vlt ver (minver s)); apply vlt_irrefl.
+  - apply vlt_irrefl.
+  - apply vlt_irrefl.
+  - rewrite (jail_preserves version (@minver version) (frame_minver version)). apply vlt_irrefl.
+  - change (minver (set_clock ?x _ _)) with (minver x). rewrite end_block_minver. apply vlt_irrefl.
+Qed.
+
+Theorem min_version_monotone_proof : forall ops (s : state), vlt (minver (run vlt ops s)) (minver s) = false.
+Proof.
+  induction ops as [|o r IH]; intros s; cbn [run fold_left]; [apply vlt_irrefl|].
+  eapply vlt_negtrans; [apply IH | apply step_minver].
+Qed.
+End MinVersion.
+
+(** What a successful Jail records *)
+Theorem jail_records_proof : forall (s s' : state) a, jail s a = (s', true) ->
+  let d := match lookup a (jlog s) with
+           | Some (d0, t0) => if now s - t0 <? Z.max Gen.C12.reset_floor (d0 + Z.quot d0 Gen.C12.reset_div)
+                              then next_sentence d0 else hd 0 Gen.C12.jail_sentences
+           | None => hd 0 Gen.C12.jail_sentences
+           end in
+  lookup a (jlog s') = Some (d, now s) /\ lookup a (until s') = Some (now s + d) /\
+  (exists v, find_val a (vals s') = Some v /\ v_jailed v = true) /\
+  (exists v, find_val a (vals s) = Some v /\ v_jailed v = false /\ ~ protected (vals s) v).
+Proof.
+  intros s s' a H d.
+  assert (Ed : d = sentence_for s a).
+  { unfold d, sentence_for, reset_threshold. rewrite first_sentence. reflexivity. }
+  destruct (jail_cases version s a) as [E|[v [Hf [Hj [Hc [Hs E]]]]]]; rewrite E in H; [discriminate|].
+  inversion H; subst s'; clear H. cbn [set_jail jlog until vals].
+  rewrite !lookup_cons, !addr_eqb_refl, find_val_set_jailed, Hf, addr_eqb_refl, Ed.
+  repeat split.
+  - eexists. split; reflexivity.
+  - exists v. repeat split; auto. intros [P|P]; [contradiction | congruence].
+Qed.
+
+End Statements.
+
+(** Sentence schedule: the table is walked one step at a time and capped *)
+Theorem sentence_table_proof :
+  (forall i, (i < length Gen.C12.jail_sentences)%nat ->
+     next_sentence (nth i Gen.C12.jail_sentences 0)
+     = nth (Nat.min (S i) (length Gen.C12.jail_sentences - 1)) Gen.C12.jail_sentences 0) /\
+  (forall d, In (next_sentence d) Gen.C12.jail_sentences) /\
+  (forall d, d < last Gen.C12.jail_sentences 0 -> d < next_sentence d) /\
+  (forall d, next_sentence d <= last Gen.C12.jail_sentences 0) /\
+  next_sentence 0 = hd 0 Gen.C12.jail_sentences.
+Proof.
+  split; [|split; [|split; [|split]]].
+  - apply table_walk.
+  - apply next_sentence_in.
+  - apply next_sentence_gt.
+  - apply next_sentence_le_last.
+  - apply first_sentence.
+Qed.
+
+(** * Non-vacuity: concrete histories (versions = integers ordered by [<]) *)
+Module Examples.
+Definition a0 : addr := comma_addr.                 (* contains 0x2c *)
+Definition a1 : addr := repeat 161 20.
+Definition a2 : addr := repeat 178 20.
+Definition a3 : addr := repeat 195 20.
+Definition a4 : addr := repeat 212 20.
+Definition setup : list (op Z) :=
+  flat_map (fun a => [AddVal a; SetEnv a 3 1]) [a0; a1; a2; a3; a4].
+(** five bonded validators with 20% each; a1..a4 send a keep-alive in block 1, a0 never does *)
+Definition silent_history : list (op Z) :=
+  setup ++ map (fun a => KeepAlive a 7) [a1; a2; a3; a4] ++ repeat (EndBlock 1 2000000000) 59.
+Definition s59 : state Z := run Z.ltb silent_history (init 1 0 None 7).
+Definition v0 : val := {| v_addr := a0; v_status := 3; v_jailed := false; v_power := 1 |}.
+
+(** the hypotheses of [inactive_jailed_at_next_check] are met at height 60 by the validator whose
+    address contains 0x2c, and it is jailed by that end-block with the first sentence *)
+Example inactive_example :
+  height s59 = 60 /\ is_check_height (height s59) = true /\ In v0 (vals s59) /\
+  is_alive s59 a0 = false /\ snap_legacy s59 = None /\ In a0 (prev_unjailed s59) /\ in_grace s59 a0 = false /\
+  lookup a0 (grace s59) = Some 1 /\
+  let s' := step Z.ltb s59 (EndBlock 1 2000000000) in
+  find_val a0 (vals s') = Some (with_jailed true v0) /\
+  lookup a0 (jlog s') = Some (60000000000, now s59) /\
+  is_alive s59 a1 = true /\ find_val a1 (vals s') = find_val a1 (vals s59).
+Proof. vm_compute. repeat split; auto 10. Qed.
+
+(** the same validator under the 25% rule: with four validators of equal power nobody exceeds 25%,
+    the first silent one is jailed; the remaining three then hold a third each and are protected *)
+Definition four : list (op Z) :=
+  flat_map (fun a => [AddVal a; SetEnv a 3 1]) [a0; a1; a2; a3] ++ repeat (EndBlock 1 2000000000) 60.
+Example protection_example :
+  let s := run Z.ltb four (init 1 0 None 7) in
+  map v_jailed (vals s) = [true; false; false; false] /\
+  forall v, In v (tl (vals s)) -> protected (vals s) v.
+Proof.
+  vm_compute. split; [reflexivity|].
+  intros v [<-|[<-|[<-|[]]]]; right; reflexivity.
+Qed.
+
+(** grace: a validator unjailed in block 62 gets grace start 62 and is not jailed at 70, 80, 90; it is at 100 *)
+Definition regrace : list (op Z) :=
+  silent_history ++ [EndBlock 1 2000000000; EndBlock 1 2000000000; Unjail a0] ++ repeat (EndBlock 1 2000000000) 29.
+Example grace_example :
+  let s := run Z.ltb regrace (init 1 0 None 7) in
+  height s = 91 /\ lookup a0 (grace s) = Some 62 /\ find_val a0 (vals s) = Some v0 /\
+  let s2 := run Z.ltb (repeat (EndBlock 1 2000000000) 10) s in
+  height s2 = 101 /\ find_val a0 (vals s2) = Some (with_jailed true v0) /\
+  (* second jailing 80 s after the first: the sentence escalates to the second table entry *)
+  lookup a0 (jlog s2) = Some (300000000000, 198000000000).
+Proof. vm_compute. repeat split. Qed.
+
+Example versions_example :
+  let s := run Z.ltb [SetMin 9; SetMin 8; Schedule 12 5; Schedule 3 5; BeginBlock] (init 5 0 None 7) in
+  minver s = 12 /\ sched s = None /\
+  keep_alive Z.ltb (run Z.ltb setup s) a1 11 = (run Z.ltb setup s, false) /\
+  snd (keep_alive Z.ltb (run Z.ltb setup s) a1 12) = true.
+Proof. vm_compute. repeat split. Qed.
+End Examples.
